@@ -436,14 +436,14 @@ class SqliteIndex(Index):
                     if picklist is None or subj in picklist:
                         yield IndexSearchResult(score, subj, self.location)
 
-    def _select(self, *, num=0, track_abundance=False, **kwargs):
-        _check_select_parameters(**kwargs)
+    def _select(self, *, num=0, track_abundance=False, abund=None, **kwargs):
+        _check_select_parameters(abund=abund, **kwargs)
 
         "Run a select! This just modifies the manifest."
         # check SqliteIndex specific conditions on the 'select'
         if num:
             raise ValueError("cannot select on 'num' in SqliteIndex")
-        if track_abundance:
+        if track_abundance or abund:
             raise ValueError("cannot store or search signatures with abundance")
         # create manifest if needed
         manifest = self.manifest
@@ -833,6 +833,8 @@ class SqliteCollectionManifest(BaseCollectionManifest):
                 conditions.append("sourmash_sketches.scaled > 0")
             if "containment" in select_d and select_d["containment"]:
                 conditions.append("sourmash_sketches.scaled > 0")
+            if "abund" in select_d and select_d["abund"]:
+                conditions.append("sourmash_sketches.with_abundance > 0")
             if "moltype" in select_d and select_d["moltype"] is not None:
                 moltype = select_d["moltype"]
                 assert moltype in ("DNA", "protein", "dayhoff", "hp"), moltype
@@ -881,7 +883,8 @@ class SqliteCollectionManifest(BaseCollectionManifest):
         c1.execute(
             f"""
         SELECT id, name, md5sum, num, scaled, ksize, filename, moltype,
-        seed, n_hashes, internal_location FROM sourmash_sketches {conditions}
+        seed, n_hashes, internal_location, with_abundance
+        FROM sourmash_sketches {conditions}
         """,
             values,
         )
@@ -899,6 +902,7 @@ class SqliteCollectionManifest(BaseCollectionManifest):
             seed,
             n_hashes,
             iloc,
+            with_abundance,
         ) in c1:
             row = dict(
                 num=num,
@@ -906,7 +910,7 @@ class SqliteCollectionManifest(BaseCollectionManifest):
                 name=name,
                 filename=filename,
                 n_hashes=n_hashes,
-                with_abundance=False,
+                with_abundance=bool(with_abundance),
                 ksize=ksize,
                 md5=md5sum,
                 internal_location=iloc,
